@@ -264,6 +264,7 @@ func replayFinding(cfg CheckCfg, r HarnessResult, f Finding, modelPath string) s
 	}
 	fmt.Fprintf(&g, "}\n\n")
 	fmt.Fprintf(&g, `func TestVerifReplay(t *testing.T) {
+	vfLoad() // read the model before any hook (a harness may stub os.Open and friends)
 	vfInstallHooks()
 	vfNames = map[string]int{}
 	var m0, m1 runtime.MemStats
